@@ -1123,15 +1123,15 @@ def _layout(tier):
                 for dvr in (False, True):
                     for gxp in (False, True):
                         L.append(("sho", {"N": N, "omega": w, "x0": x0, "dvr": dvr, "gxp": gxp}))
-    L += [("sho", {"random": True})] * (40 if quick else 1400)
+    L += [("sho", {"random": True})] * (40 if quick else 4000)
     for N in ([1, 2, 3, 4, 7, 12] if quick else list(range(1, 13))):
         for endpoint in (False, True):
             for dvr in (False, True):
                 L += [("sine", {"N": N, "endpoint": endpoint, "dvr": dvr})] * (1 if quick else 3)
-    L += [("sine", {"random": True})] * (24 if quick else 700)
+    L += [("sine", {"random": True})] * (24 if quick else 2500)
     for N in ([2, 4] if quick else [1, 2, 3, 4, 5]):
         L += [("sine", {"N": N, "endpoint": e, "dvr": False, "quadrature": True}) for e in ((False,) if quick else (False, True))]
-    L += [("spin", {})] * (6 if quick else 60)
+    L += [("spin", {})] * (6 if quick else 200)
     L += [("electron", {})] * (2 if quick else 6)
     for vac in (False, True):
         L += [("multi", {"vac": vac, "n": n}) for n in range(1, 7)]
@@ -1143,11 +1143,11 @@ def _layout(tier):
                 for same in (True, False):
                     for jkind in ("array", "quantity", "quantity-periodic", "array-periodic"):
                         L.append(("holstein", {"nmol": nmol, "nmode": nmode, "same": same, "jkind": jkind}))
-    L += [("holstein", {"random": True})] * (0 if quick else 260)
-    L += [("sbm", {"nmode": n}) for n in (1, 2, 3, 4)] * (3 if quick else 30)
+    L += [("holstein", {"random": True})] * (0 if quick else 700)
+    L += [("sbm", {"nmode": n}) for n in (1, 2, 3, 4)] * (3 if quick else 110)
     for kind, mc in (("spin", 7), ("eph", 3), ("multi", 3), ("sine", 4)):
         for ncell in range(1, mc + 1):
-            L += [("ti", {"kind": kind, "ncell": ncell})] * (3 if quick else 25)
+            L += [("ti", {"kind": kind, "ncell": ncell})] * (3 if quick else 90)
     L += [("jmatrix", {})] * (3 if quick else 20)
     L += [("quantity", {})] * (3 if quick else 20)
     _LAYOUT[tier] = L
@@ -1156,16 +1156,16 @@ def _layout(tier):
 
 def plan(tier):
     quick = tier == "quick"
-    return {"ncases": len(_layout(tier)), "min_nontrivial": 3000 if quick else 30000, "case_time_limit": 120,
+    return {"ncases": len(_layout(tier)), "min_nontrivial": 3000 if quick else 120000, "case_time_limit": 120,
             "required_classes": ["BasisSHO", "sho-dvr", "sho-shifted", "sho-general-power", "size-1", "BasisSineDVR", "sine-dvr",
                                  "sine-endpoint", "sine-quadrature", "BasisHalfSpin", "BasisSimpleElectron",
                                  "BasisMultiElectron", "BasisMultiElectronVac", "BasisHopsBoson", "after-failed-call",
                                  "HolsteinModel", "holstein-3mol", "holstein-2mode", "holstein-omega0!=omega1",
                                  "holstein-scheme4", "holstein-J-quantity-periodic", "SpinBosonModel", "TI1DModel",
                                  "ti-wrap-around", "construct_j_matrix", "Quantity"],
-            "required_counters": {"oracle": 10000 if quick else 150000, "history_checks": 3000 if quick else 40000,
-                                  "scheme_spectra": 100 if quick else 1000, "doc_formula_spectra": 20 if quick else 200,
-                                  "translation_checks": 20 if quick else 300}}
+            "required_counters": {"oracle": 10000 if quick else 500000, "history_checks": 3000 if quick else 150000,
+                                  "scheme_spectra": 100 if quick else 3000, "doc_formula_spectra": 20 if quick else 500,
+                                  "translation_checks": 20 if quick else 1000}}
 
 
 def run_case(ctx):
